@@ -227,6 +227,504 @@ def const_val(o, mir=None):
     return None
 
 
+# ---------------------------------------------------------------- semantic discharges (independent of names and of where the code lives)
+_INTS = ("u32", "usize", "u64", "u16", "u8", "i32", "i64")
+
+
+def _nogen(path):
+    prev = None
+    while prev != path:
+        prev = path
+        path = re.sub(r"::<[^<>]*>|<[^<>]*>", "", path)
+    return path
+
+
+def _field_writes_size_like(F, owner, other):
+    """`other` is a field place (x.f): every write of field f of that type anywhere in the crate is `= literal` or
+    `+=/-= size-like`.  → (ok, number of writes)"""
+    from vlib.facts import peel
+    o = _strip_val(other)
+    if not (isinstance(o, dict) and o.get("k") == "Field" and o.get("base_ty")):
+        return False, 0
+    bty = _nogen(o["base_ty"].lstrip("&").replace("mut ", ""))
+    nw = 0
+    for g in F.fns:
+        if g.get("body") is None:
+            continue
+        for x in walk(g["body"]):
+            if x.get("k") in ("Assign", "AssignOp"):
+                l = _strip_val(x["lhs"])
+                if isinstance(l, dict) and l.get("k") == "Field" and l["name"] == o["name"] and _nogen((l.get("base_ty") or "").lstrip("&").replace("mut ", "")) == bty:
+                    nw += 1
+                    if not size_like(F, g, x["rhs"]):
+                        return False, nw
+    return True, nw
+
+
+def _hir_body(F, fn):
+    body = fn.get("body")
+    if body is None:
+        parent = F.by_path.get(fn.get("parent") or "", [None])[0]
+        body = parent.get("body") if parent else None
+        return body, parent
+    return body, fn
+
+
+def _strip_val(e):
+    from vlib.facts import peel
+    while True:
+        e = peel(e)
+        if not isinstance(e, dict):
+            return e
+        if e.get("k") == "Cast":
+            e = e["a"]
+            continue
+        if e.get("k") == "MethodCall" and e["method"] in ("clone", "into", "try_into", "unwrap", "to_owned", "copied", "cloned") and not e.get("args"):
+            e = e["recv"]
+            continue
+        return e
+
+
+def _feeds(e, lets):
+    """Expressions an expression is computed from, following receivers, `?`, immutable lets (upstream data-flow chain)."""
+    from vlib.facts import peel
+    seen = 0
+    while isinstance(e, dict) and seen < 40:
+        seen += 1
+        yield e
+        e = peel(e)
+        k = e.get("k")
+        if k == "MethodCall":
+            e = e["recv"]
+        elif k == "Match" and (e.get("src") or "").startswith("TryDesugar"):
+            e = e["scrut"]
+        elif k == "Call" and e.get("args") and (e.get("callee") or "").startswith(("std::ops::Try", "std::iter::IntoIterator", "core::")):
+            e = e["args"][0]
+        elif k == "Path" and e.get("res", {}).get("hid") in lets and "init" in lets[e["res"]["hid"]]:
+            e = lets[e["res"]["hid"]]["init"]
+        elif k in ("Cast", "Field"):
+            e = e.get("a") or e.get("base")
+        else:
+            return
+
+
+def size_like(F, owner, e, depth=0):
+    """Why `e` is a *size-like* quantity: it counts items that are held in memory (a length, an enumerate index, a small
+    literal) or is a local-declaration count that wasmparser's LocalsReader has already summed with checked arithmetic.
+    Sums of such quantities cannot overflow before the input itself exceeds the address space.  → reason or None."""
+    from vlib.facts import lit_int, binding_site
+    body = owner["body"]
+    lets = {st["pat"]["hid"]: st for st in walk(body) if st.get("k") == "Let" and st["pat"].get("k") == "Binding"}
+    e = _strip_val(e)
+    if not isinstance(e, dict):
+        return None
+    k = e.get("k")
+    if k == "Lit":
+        v = lit_int(e.get("lit"))
+        return "literal %s" % v if v is not None and 0 <= v < 1 << 16 else None
+    if k == "MethodCall" and e["method"] in ("len", "count"):
+        return "length of an in-memory collection"
+    if k == "Path" and e.get("res", {}).get("r") == "local":
+        hid = e["res"]["hid"]
+        if hid in lets and "init" in lets[hid] and "Mut" not in (lets[hid]["pat"].get("mode") or ""):
+            return size_like(F, owner, lets[hid]["init"], depth)
+        # closure / for-loop pattern bindings: where do the elements come from?
+        for n in walk(body):
+            src = None
+            if n.get("k") == "MethodCall" and n.get("args"):
+                for a_ in n["args"]:
+                    if a_.get("k") == "Closure" and any(b.get("k") == "Binding" and b.get("hid") == hid for p_ in a_["params"] for b in walk(p_)):
+                        src = (n["recv"], a_["params"])
+            if n.get("k") == "Match" and n.get("src") == "ForLoopDesugar":
+                inner = [m for m in walk(n["arms"][0]["body"]) if m.get("k") == "Match" and m is not n]
+                if inner and any(b.get("k") == "Binding" and b.get("hid") == hid for arm in inner[0]["arms"] for b in walk(arm["pat"])):
+                    sc = n["scrut"]
+                    src = (sc["args"][0] if sc.get("k") == "Call" and sc.get("args") else sc, [arm["pat"] for arm in inner[0]["arms"]])
+            if src is None:
+                continue
+            chain, pats = src
+            for x in _feeds(chain, lets):
+                ty = (x.get("ty") or "") + (x.get("recv_ty") or "")
+                if "wasmparser::LocalsReader" in ty or "wasmparser::LocalsIterator" in ty:
+                    return "declaration count from wasmparser's LocalsReader (which keeps a checked running total and rejects the body first)"
+                if x.get("k") == "MethodCall" and x["method"] == "enumerate":
+                    # the index is the first component of the (index, item) pair
+                    for p_ in pats:
+                        for t_ in walk(p_):
+                            if t_.get("k") == "Tuple" and t_["pats"] and any(b.get("hid") == hid for b in walk(t_["pats"][0])):
+                                return "enumerate() index over an in-memory collection"
+            return None
+        # a parameter: every call site must pass a size-like value
+        if depth < 2:
+            for i, pm in enumerate(owner.get("params", [])):
+                if any(b.get("k") == "Binding" and b.get("hid") == hid for b in walk(pm["pat"])):
+                    sites = []
+                    for g in F.fns:
+                        if g.get("body") is None:
+                            continue
+                        for c in walk(g["body"]):
+                            if c.get("k") in ("Call", "MethodCall") and _nogen(c.get("callee") or "") == _nogen(owner["path"]):
+                                args = c.get("args", [])
+                                j = i - 1 if c["k"] == "MethodCall" else i
+                                if 0 <= j < len(args):
+                                    sites.append((g, args[j]))
+                    if not sites:
+                        return None
+                    why = []
+                    for g, a_ in sites:
+                        w = size_like(F, g, a_, depth + 1)
+                        if w is None:
+                            return None
+                        why.append(w)
+                    return "parameter; every one of %d call sites passes %s" % (len(sites), " / ".join(sorted(set(why))))
+    return None
+
+
+def accumulation_discharge(F, fn, site):
+    """`acc += x` / `a + b` where the addend is size-like (see size_like) and the other operand is an integer place that
+    is only ever initialised with a small literal or advanced by size-like amounts in this function."""
+    from vlib.facts import place_path, peel
+    body, owner = _hir_body(F, fn)
+    if body is None:
+        return None
+    sp = site["sp"]
+    target = None
+    for n in walk(body):
+        if n.get("k") in ("Binary", "AssignOp") and n.get("sp") == sp and n.get("op") in ("+", "+="):
+            target = n
+    if target is None:
+        return None
+    if target["k"] == "AssignOp":
+        why = size_like(F, owner, target["rhs"])
+        return ("accumulates a size-like addend: " + why) if why else None
+    wa, wb = size_like(F, owner, target["a"]), size_like(F, owner, target["b"])
+    if wa and wb:
+        return "sum of size-like operands: %s; %s" % (wa, wb)
+    for w, other in ((wa, target["b"]), (wb, target["a"])):
+        if not w:
+            continue
+        pp = place_path(_strip_val(other))
+        if not pp:
+            continue
+        # the other operand is a counter place: all of its writes in this body are `= literal` / `+= size-like`
+        ok, nw = True, 0
+        for x in walk(body):
+            if x.get("k") in ("Assign", "AssignOp") and place_path(x["lhs"]) == pp:
+                nw += 1
+                if not size_like(F, owner, x["rhs"]):
+                    ok = False
+        if ok and nw == 0:
+            ok, nw = _field_writes_size_like(F, owner, other)
+        if ok and nw:
+            return "sum of a size-like operand (%s) and the counter `%s` (%d writes, all by size-like amounts)" % (w, pp, nw)
+    return None
+
+
+def coupled_last_index(F, fn, site):
+    """`v[n - 1]` where `n` mirrors `v.len()`: the access sits under `n > 0`, and in this function `n` is written only as
+    `n += 1` in a block that also pushes onto `v` (and every push onto `v` is paired that way).  At entry the pair is
+    assumed in step (both come from the caller's initialisation)."""
+    from vlib.facts import place_path, peel, lit_int, guard_conditions, path_to
+    body, owner = _hir_body(F, fn)
+    if body is None:
+        return None
+    sp = site["sp"]
+    idx = None
+    for n in walk(body):
+        if n.get("k") == "Index" and n.get("sp") and n["sp"][0] == sp[0] and n["sp"][2] == sp[2] and n["sp"][3] == sp[3]:
+            idx = n
+    if idx is None:
+        cands = [n for n in walk(body) if n.get("k") == "Index" and n.get("sp") and n["sp"][0] <= sp[0] <= n["sp"][2]
+                 and (n["sp"][0], n["sp"][1]) <= (sp[0], sp[1]) and (sp[2], sp[3]) <= (n["sp"][2], n["sp"][3])]
+        idx = cands[-1] if cands else None
+    if idx is None:
+        return None
+    ix = _strip_val(idx["index"])
+    lets = {st["pat"]["hid"]: st for st in walk(body) if st.get("k") == "Let" and st["pat"].get("k") == "Binding" and "init" in st}
+    if ix.get("k") == "Path" and ix.get("res", {}).get("hid") in lets:
+        ix = _strip_val(lets[ix["res"]["hid"]]["init"])
+    if not (ix.get("k") == "Binary" and ix["op"] == "-" and _strip_val(ix["b"]).get("k") == "Lit" and lit_int(_strip_val(ix["b"])["lit"]) == 1):
+        return None
+    n_pp, v_pp = place_path(_strip_val(ix["a"])), place_path(idx["base"])
+    if not n_pp or not v_pp:
+        return None
+    n_pp = n_pp.lstrip("*")
+    # guard n > 0 (or n != 0 / n >= 1) on the way to the access, including the left operand of an enclosing `&&`
+    def is_guard(c, pol):
+        c = peel(c)
+        if c.get("k") == "Binary" and c["op"] == "&&" and pol:
+            return is_guard(c["a"], True) or is_guard(c["b"], True)
+        if c.get("k") != "Binary" or (place_path(_strip_val(c["a"])) or "").lstrip("*") != n_pp:
+            return False
+        b = _strip_val(c["b"])
+        if b.get("k") != "Lit":
+            return False
+        v = lit_int(b["lit"])
+        return (pol and ((c["op"] in (">", "!=") and v == 0) or (c["op"] == ">=" and v == 1))) or (not pol and ((c["op"] == "==" and v == 0) or (c["op"] == "<" and v == 1)))
+    guarded = any(pol != "pat" and is_guard(c, pol) for pol, c in guard_conditions(body, idx))
+    if not guarded:
+        # `n > 0 && v[n-1] == x` : the access is in the right operand
+        for a_, _role in (path_to(body, idx) or []):
+            if isinstance(a_, dict) and a_.get("k") == "Binary" and a_["op"] == "&&" and is_guard(a_["a"], True) and any(y is idx for y in walk(a_["b"])):
+                guarded = True
+    if not guarded:
+        return None
+    # coupling inside this function
+    incs = [x for x in walk(body) if x.get("k") in ("Assign", "AssignOp") and (place_path(x["lhs"]) or "").lstrip("*") == n_pp]
+    pushes = [x for x in walk(body) if x.get("k") == "MethodCall" and x["method"] in ("push", "pop", "remove", "insert", "clear", "truncate", "append", "extend", "drain", "retain", "swap_remove")
+              and place_path(x["recv"]) == v_pp]
+
+    def block_of(x):
+        for a_, _role in reversed(path_to(body, x) or []):
+            if isinstance(a_, dict) and a_.get("k") == "Block":
+                return id(a_)
+        return None
+    for x in incs:
+        r_ = _strip_val(x["rhs"])
+        if not (x["k"] == "AssignOp" and x["op"] in ("+=", "+") and r_.get("k") == "Lit" and lit_int(r_["lit"]) == 1):
+            return None
+    if any(p_["method"] != "push" for p_ in pushes):
+        return None
+    if sorted(block_of(x) for x in incs) != sorted(block_of(x) for x in pushes):
+        return None
+    entry = _entry_in_step(F, owner, n_pp, v_pp)
+    if entry is None:
+        return None
+    return "`%s[%s - 1]` under `%s > 0`; `%s` is advanced only together with `%s.push(..)` (%d paired sites); %s" % (v_pp, n_pp, n_pp, n_pp, v_pp, len(incs), entry)
+
+
+def _is_zero(e):
+    from vlib.facts import lit_int
+    e = _strip_val(e)
+    if isinstance(e, dict) and e.get("k") == "Call" and not e.get("args") and (e.get("callee") or "").split("::")[-1] == "default" and (e.get("ty") or "") in _INTS:
+        return True
+    return isinstance(e, dict) and e.get("k") == "Lit" and lit_int(e.get("lit")) == 0
+
+
+def _is_empty_coll(e):
+    e = _strip_val(e)
+    if not isinstance(e, dict):
+        return False
+    if e.get("k") == "Call" and not e.get("args") and (e.get("callee") or "").split("::")[-1] in ("new", "default"):
+        return True
+    return e.get("k") == "MethodCall" and e["method"] in ("new", "default") and not e.get("args")
+
+
+def _callers_start_in_step(F, owner, in_, iv, depth):
+    """→ number of originating call sites, or 0 when some caller does not start the (counter, vector) pair at 0 / empty or
+    changes one of them by other means.  Functions that merely forward their own parameters to the owner are followed."""
+    from vlib.facts import peel
+    fwd = {_nogen(owner["path"]): (in_, iv)}      # function → positions of (counter, vector) among its parameters
+
+    def calls_into(g):
+        for c in walk(g["body"]):
+            if c.get("k") in ("Call", "MethodCall") and _nogen(c.get("callee") or "") in fwd:
+                pn, pv = fwd[_nogen(c["callee"])]
+                off = 1 if c["k"] == "MethodCall" else 0
+                if max(pn, pv) - off < len(c.get("args", [])):
+                    yield c, peel(c["args"][pn - off]), peel(c["args"][pv - off])
+
+    def clean(g, h):
+        """g changes local/param h only by handing it to a function of `fwd`"""
+        for x in walk(g["body"]):
+            if x.get("k") in ("Assign", "AssignOp") and peel(x["lhs"]).get("res", {}).get("hid") == h:
+                return False
+            if x.get("k") == "MethodCall" and x["method"] in _MUTATORS and peel(x["recv"]).get("res", {}).get("hid") == h:
+                return False
+            if x.get("k") in ("Call", "MethodCall") and _nogen(x.get("callee") or "") not in fwd:
+                for a2 in x.get("args", []):
+                    if a2.get("k") == "AddrOf" and a2.get("mut") and peel(a2["a"]).get("res", {}).get("hid") == h:
+                        return False
+                    if peel(a2).get("k") == "Path" and peel(a2).get("res", {}).get("hid") == h and (a2.get("ty") or "").startswith("&mut"):
+                        return False
+        return True
+
+    fns = [g for g in F.fns if g.get("body") is not None]
+    changed = True
+    while changed:
+        changed = False
+        for g in fns:
+            if _nogen(g["path"]) in fwd:
+                continue
+            gparams = {}
+            for i, pm in enumerate(g.get("params", [])):
+                for b in walk(pm["pat"]):
+                    if b.get("k") == "Binding":
+                        gparams[b["hid"]] = i
+            for c, an, av in calls_into(g):
+                hn, hv = an.get("res", {}).get("hid"), av.get("res", {}).get("hid")
+                if an.get("k") == "Path" and av.get("k") == "Path" and hn in gparams and hv in gparams:
+                    fwd[_nogen(g["path"])] = (gparams[hn], gparams[hv])
+                    changed = True
+                    break
+    nsites = 0
+    for g in fns:
+        lets = {st["pat"]["hid"]: st for st in walk(g["body"]) if st.get("k") == "Let" and st["pat"].get("k") == "Binding" and "init" in st}
+        for c, an, av in calls_into(g):
+            if not (an.get("k") == "Path" and av.get("k") == "Path"):
+                return 0
+            hn, hv = an.get("res", {}).get("hid"), av.get("res", {}).get("hid")
+            if not (clean(g, hn) and clean(g, hv)):
+                return 0
+            if _nogen(g["path"]) in fwd and hn not in lets and hv not in lets:
+                continue        # a forwarder passing its own parameters on
+            if not (hn in lets and hv in lets and _is_zero(lets[hn]["init"]) and _is_empty_coll(lets[hv]["init"])):
+                return 0
+            nsites += 1
+    return nsites
+
+
+def _entry_in_step(F, owner, n_pp, v_pp):
+    """The counter/vector pair is in step when the owner is entered: for parameters, every caller passes `&mut` locals
+    initialised to 0 / an empty vector and touches them in no other way than through this callee; for fields of a struct,
+    no other function of the crate writes them and every literal of the struct starts them at 0 / empty."""
+    from vlib.facts import place_path, peel
+    roots = (n_pp.split(".")[0].split("[")[0], v_pp.split(".")[0].split("[")[0])
+    pidx = {}
+    for i, pm in enumerate(owner.get("params", [])):
+        for b in walk(pm["pat"]):
+            if b.get("k") == "Binding" and b.get("name") in roots:
+                pidx[b["name"]] = i
+    if "." not in n_pp and "." not in v_pp and roots[0] in pidx and roots[1] in pidx:
+        nsites = _callers_start_in_step(F, owner, pidx[roots[0]], pidx[roots[1]], 0)
+        return "every one of %d callers starts the pair at 0 / empty and changes it only through this function" % nsites if nsites else None
+    if n_pp.startswith("self.") and v_pp.startswith("self.") and owner.get("self_adt"):
+        adt = _nogen(owner["self_adt"])
+        fn_, fv = n_pp.split(".")[1], v_pp.split(".")[1].split("[")[0]
+        for g in F.fns:
+            if g.get("body") is None or g is owner:
+                continue
+            for x in walk(g["body"]):
+                if x.get("k") in ("Assign", "AssignOp"):
+                    l = _strip_val(x["lhs"])
+                    while isinstance(l, dict) and l.get("k") == "Index":
+                        l = _strip_val(l["base"])
+                    if isinstance(l, dict) and l.get("k") == "Field" and l["name"] in (fn_, fv) and _nogen((l.get("base_ty") or "").lstrip("&").replace("mut ", "")) == adt:
+                        return None
+                if x.get("k") == "MethodCall" and x["method"] in _MUTATORS:
+                    l = _strip_val(x["recv"])
+                    if isinstance(l, dict) and l.get("k") == "Field" and l["name"] == fv and _nogen((l.get("base_ty") or "").lstrip("&").replace("mut ", "")) == adt:
+                        return None
+                if x.get("k") == "Struct" and _nogen(x.get("adt") or "") == adt:
+                    for fname, val in x.get("fields", []):
+                        if fname == fn_ and not _is_zero(val):
+                            return None
+                        if fname == fv and not _is_empty_coll(val):
+                            return None
+        return "no other function writes `%s`/`%s` of %s and every literal of the struct starts them at 0 / empty" % (fn_, fv, adt.split("::")[-1])
+    return None
+
+
+_MUTATORS = ("push", "pop", "remove", "insert", "clear", "truncate", "append", "extend", "drain", "retain", "swap_remove", "entry",
+             "resize", "split_off", "dedup", "remove_entry", "get_mut", "iter_mut", "values_mut", "sort", "reverse")
+
+
+def _loop_source(body, hid):
+    """The iterated expression and binding patterns of the for-loop / iterator closure that binds local `hid`."""
+    for n in walk(body):
+        if n.get("k") == "MethodCall" and n.get("args"):
+            for a_ in n["args"]:
+                if a_.get("k") == "Closure" and any(b.get("k") == "Binding" and b.get("hid") == hid for p_ in a_["params"] for b in walk(p_)):
+                    return n["recv"], a_["params"], n
+        if n.get("k") == "Match" and (n.get("src") or "").startswith("ForLoopDesugar"):
+            inner = [m for m in walk(n["arms"][0]["body"]) if m.get("k") == "Match" and m is not n]
+            if inner and any(b.get("k") == "Binding" and b.get("hid") == hid for arm in inner[0]["arms"] for b in walk(arm["pat"])):
+                sc = n["scrut"]
+                return (sc["args"][0] if sc.get("k") == "Call" and sc.get("args") else sc), [arm["pat"] for arm in inner[0]["arms"]], n
+    return None, None, None
+
+
+def _mutated_between(body, pp, after_sp, before_node):
+    """Is place `pp` mutated (mutating method, assignment, `&mut` hand-over) anywhere in the body at or after line `after_sp`?"""
+    from vlib.facts import place_path, peel
+    for x in walk(body):
+        if not x.get("sp") or x["sp"][0] < after_sp:
+            continue
+        if x.get("k") == "MethodCall" and x["method"] in _MUTATORS and place_path(x["recv"]) == pp:
+            return True
+        if x.get("k") in ("Assign", "AssignOp") and (place_path(x["lhs"]) or "").split("[")[0] == pp:
+            return True
+        if x.get("k") == "AddrOf" and x.get("mut") and place_path(x["a"]) == pp:
+            return True
+    return False
+
+
+def index_in_step(F, fn, site):
+    """`b[i]` is in bounds when (1) `i` is a key obtained from `b.keys()` of the same, since then unmodified map, or
+    (2) `i` is the enumerate() index over a collection `a` and an earlier guard clause has established
+    a.len() == b.len() (possibly through a third value), neither collection being modified afterwards."""
+    from vlib.facts import place_path, peel, guard_conditions
+    body, owner = _hir_body(F, fn)
+    if body is None:
+        return None
+    sp = site["sp"]
+    cands = [n for n in walk(body) if n.get("k") == "Index" and n.get("sp")
+             and (n["sp"][0], n["sp"][1]) <= (sp[0], sp[1]) and (sp[2], sp[3]) <= (n["sp"][2], n["sp"][3])]
+    if not cands:
+        return None
+    idx = cands[-1]
+    b_pp = place_path(idx["base"])
+    ix = _strip_val(idx["index"])
+    if not b_pp or not (ix.get("k") == "Path" and ix.get("res", {}).get("r") == "local"):
+        return None
+    hid = ix["res"]["hid"]
+    lets = {st["pat"]["hid"]: st for st in walk(body) if st.get("k") == "Let" and st["pat"].get("k") == "Binding"}
+    chain, pats, loop = _loop_source(body, hid)
+    if chain is None:
+        return None
+    feeds = list(_feeds(chain, lets))
+    # (1) keys of the same map
+    for x in feeds:
+        if x.get("k") == "MethodCall" and x["method"] == "keys" and place_path(x["recv"]) == b_pp:
+            if not _mutated_between(body, b_pp, x["sp"][0], idx):
+                return "`%s[k]` with k taken from `%s.keys()`; the map is not modified in between" % (b_pp, b_pp)
+    # (2) enumerate index over a collection of the same length
+    a_pp = None
+    is_first = any(t_.get("k") == "Tuple" and t_["pats"] and any(b.get("hid") == hid for b in walk(t_["pats"][0])) for p_ in pats for t_ in walk(p_))
+    if is_first and any(x.get("k") == "MethodCall" and x["method"] == "enumerate" for x in feeds):
+        for x in feeds:
+            if x.get("k") == "MethodCall" and x["method"] in ("iter", "iter_mut", "into_iter"):
+                a_pp = place_path(x["recv"])
+            elif x.get("k") == "Path" and a_pp is None:
+                a_pp = place_path(x)
+    if not a_pp:
+        return None
+    # equalities established by guards on the way to the loop
+    eq = {}
+
+    def find(t):
+        while eq.get(t, t) != t:
+            t = eq[t]
+        return t
+
+    def term(e):
+        e = _strip_val(e)
+        if isinstance(e, dict) and e.get("k") == "MethodCall" and e["method"] == "len":
+            q = place_path(e["recv"])
+            return "len(%s)" % q if q else None
+        return place_path(e) if isinstance(e, dict) else None
+
+    guard_sp = None
+    for pol, c in guard_conditions(body, loop):
+        if pol == "pat":
+            continue
+        st = [peel(c)]
+        while st:
+            x = peel(st.pop())
+            if x.get("k") == "Binary" and ((x["op"] == "||" and not pol) or (x["op"] == "&&" and pol)):
+                st += [x["a"], x["b"]]
+            elif x.get("k") == "Binary" and ((x["op"] == "!=" and not pol) or (x["op"] == "==" and pol)):
+                ta, tb = term(x["a"]), term(x["b"])
+                if ta and tb:
+                    eq[find(ta)] = find(tb)
+                    guard_sp = x["sp"][0] if guard_sp is None else min(guard_sp, x["sp"][0])
+    if guard_sp is None or find("len(%s)" % a_pp) != find("len(%s)" % b_pp):
+        return None
+    if _mutated_between(body, a_pp, guard_sp, idx) or _mutated_between(body, b_pp, guard_sp, idx):
+        return None
+    return "`%s[i]` with i the enumerate() index over `%s`; an earlier guard returns unless %s.len() == %s.len(), and neither is modified afterwards" % (b_pp, a_pp, a_pp, b_pp)
+
+
 def nopanic(F, roots=None, rule="R-NOPANIC", title=None, prop_label="parse"):
     repo = os.environ.get("ORCA_ANALYSED_REPO", REPO)
     r = RuleResult(rule, title or
@@ -266,7 +764,7 @@ def nopanic(F, roots=None, rule="R-NOPANIC", title=None, prop_label="parse"):
             # ---- guard idioms ------------------------------------------------
             if kind.startswith("assert:Overflow"):
                 dbg += 1
-                why = overflow_discharge(F, fn, s)
+                why = overflow_discharge(F, fn, s) or accumulation_discharge(F, fn, s)
                 if why:
                     r.ob(True, {"site": key, "discharged_by": why})
                     continue
@@ -275,6 +773,11 @@ def nopanic(F, roots=None, rule="R-NOPANIC", title=None, prop_label="parse"):
                 ln, ix = (const_val(o, fn["mir"]) for o in t["ops"])
                 if ln is not None and ix is not None and ix < ln:
                     r.ob(True, {"site": key, "discharged_by": "constant index %d < constant length %d" % (ix, ln)})
+                    continue
+            if kind.startswith(("call:Index", "call:IndexMut")):
+                why = coupled_last_index(F, fn, s) or index_in_step(F, fn, s)
+                if why:
+                    r.ob(True, {"site": key, "discharged_by": why})
                     continue
             if kind.startswith("call:") and "unwrap" in kind and "std::convert::Infallible" in t.get("callee_args", ""):
                 r.ob(True, {"site": key, "discharged_by": "Result<_, Infallible>::unwrap cannot fail"})
